@@ -63,6 +63,10 @@ def cases(tier, seed):
             out.append({'g': ['er', n, 2.5 / n, d, seed + n], 'directed': d, 'ws': n, 'schemes': ['bin', 'int'], 'big': True})
     for g in G.blob_chains(300 if thorough else 100):
         out.append({'g': g, 'directed': False, 'ws': 1, 'schemes': ['bin'], 'big': True})
+    # a dense part and a far tail in ONE component (a 40-clique with a tail of 160 / 260 nodes): walk counts of the clique
+    # and the single walk to the end of the tail live in the same matrix, 300 orders of magnitude apart
+    for k, t in ((40, 260), (30, 160)) + (((50, 500),) if thorough else ()):
+        out.append({'g': ['named', 'lollipop', k, t], 'directed': False, 'ws': 1, 'schemes': ['bin'], 'big': True})
     for g in G.many_paths(200 if thorough else 131):
         out.append({'g': g, 'directed': g[-1] is True, 'ws': 1, 'schemes': ['bin', 'int']})
     out.append({'kind': 'degenerate', 'g': ['named', 'path', 2], 'directed': False, 'ws': 0, 'schemes': []})
@@ -263,7 +267,7 @@ def run(case, bct, REC):
     if case.get('kind') == 'concurrent':
         from .common import concurrent_callers_agree
         REC.tag(PROP, 'exec')
-        return concurrent_callers_agree(REC, PROP, bct, [('distance_bin', lambda rs, n: (_cc_und(rs, n, True),)), ('distance_wei', lambda rs, n: (_cc_und(rs, n),)), ('distance_wei_floyd', lambda rs, n: (_cc_und(rs, n),)), ('efficiency_wei', lambda rs, n: (_cc_und(rs, n),))], case['n'], case['ws'])
+        return concurrent_callers_agree(REC, PROP, bct, [('distance_bin', lambda rs, n: (_cc_und(rs, n, True),)), ('distance_wei', lambda rs, n: (_cc_und(rs, n),)), ('distance_wei_floyd', lambda rs, n: (_cc_und(rs, n),)), ('efficiency_wei', lambda rs, n: (_cc_und(rs, n),))], case['n'], case['ws'], rounds=2)
     if case.get('kind') == 'degenerate':
         from .common import degenerate_sizes
         REC.tag(PROP, 'exec')
